@@ -4,4 +4,5 @@ CONSTANTS
   MaxSize = 200
   OpsUniverse <- U_ops
   Mirror = FALSE
+  ShareMemo = FALSE
   MaxOps = 0
